@@ -79,6 +79,25 @@ fn chk_ser_len(n: usize) -> Option<Value> {
         _ => None,
     }
 }
+// serialiser vs consensus serialiser on small trees (pair order, nesting)
+fn chk_ser_tree(data: &[u8]) -> Option<Value> {
+    use chialisp::classic::clvm::__type_compatibility__::Stream;
+    use chialisp::classic::clvm::serialize::sexp_to_stream;
+    let d = data.to_vec();
+    let res = catch_unwind(move || {
+        let mut a = clvmr::Allocator::new();
+        let node = clvmr::serde::node_from_bytes(&mut a, &d).ok()?;
+        let mut st = Stream::new(None);
+        sexp_to_stream(&mut a, node, &mut st);
+        let got = st.get_value().data().clone();
+        if got != d { Some(got) } else { None }
+    });
+    match res {
+        Ok(Some(g)) => Some(hit(json!({"clvm_bytes": data}), format!("consensus serialisation {:?}", data), format!("tool serialisation {:?}", g), "sexp_to_stream vs the canonical bytes of the same tree")),
+        Err(_) => Some(hit(json!({"clvm_bytes": data}), "no panic".into(), "panic".into(), "serialiser panicked")),
+        _ => None,
+    }
+}
 fn deser_inputs() -> Vec<Vec<u8>> {
     let mut v: Vec<Vec<u8>> = vec![];
     for b in 0u16..=0xff {
@@ -1059,6 +1078,7 @@ pub fn search(name: &str, seed: u64) -> Value {
         }
         "atom_from_stream" | "sexp_from_stream" | "int_from_bytes" | "get_u32" | "read" | "atom_size_blob" => {
             for d in deser_inputs() { if let Some(v) = chk_deser(&d) { return v; } }
+            for hex in ["ff0102", "ffff010203", "ff01ff0203", "ffff0102ff0304", "ff83616263ff8180ff80ff0180", "ff80ff8080"] { if let Some(v) = chk_ser_tree(&hexv(hex)) { return v; } }
             for n in [0usize, 1, 2, 0x3f, 0x40, 0x41, 0x1fff, 0x2000, 0x2001, 0xfffff, 0x100000, 0x100001] { if let Some(v) = chk_ser_len(n) { return v; } }
             if thorough() { for n in [0x7ffffffusize, 0x8000000, 0x8000001] { if let Some(v) = chk_ser_len(n) { return v; } } }
             nf("sexp_from_stream agrees with clvmr node_from_bytes on the enumerated byte strings; sexp_to_stream agrees with node_to_bytes at every length-class boundary up to 1 MiB (thorough: 128 MiB)")
